@@ -10,6 +10,7 @@ import (
 	"fmt"
 	"go/constant"
 	"go/token"
+	"go/types"
 	"os"
 	"os/exec"
 	"path/filepath"
@@ -1092,6 +1093,10 @@ func fieldOnlyConstStores(p *Prog, field string) bool {
 				if fn.Name() == "UnmarshalCBOR" || fn.Name() == "UnmarshalBinary" {
 					continue
 				}
+				// a constructor helper's parameter that is a constant at every call site
+				if prm, isParam := intRootNoVar(st.Val).(*ssa.Parameter); isParam && paramAlwaysConst(p, fn, prm) {
+					continue
+				}
 				return false
 			}
 		}
@@ -1237,7 +1242,7 @@ func (e *E3) boundsObligation(r *Result, rule string, f *Flow, c boundsSite) {
 			return
 		}
 		if cst, ok := constInt(intRootNoVar(i)); ok {
-			ok2 := has(fmt.Sprintf("v:lenge:%s:%d", canon(base), cst+1)) || arrayLenAtLeast(base, cst+1) || knownLen(m, base) >= cst+1 || e.paramLenAtLeast(f, fn, base, cst+1)
+			ok2 := has(fmt.Sprintf("v:lenge:%s:%d", canon(base), cst+1)) || arrayLenAtLeast(base, cst+1) || knownLen(m, base) >= cst+1 || e.paramLenAtLeast(f, fn, base, cst+1) || minLen(p, base, 0) >= cst+1
 			emit(ok2, fmt.Sprintf("constant index %d into a value of peer-controlled length: needs len >= %d established", cst, cst+1), true)
 			return
 		}
@@ -2072,4 +2077,99 @@ func (e *E3) sizeBoundedAtCallers(f *Flow, fn *ssa.Function, size ssa.Value, dep
 		return ""
 	}
 	return fmt.Sprintf("size is a parameter that is bounded at all %d call site(s) of %s", sites, e.p.FuncName(fn))
+}
+
+// paramAlwaysConst: every static call site passes a constant for prm (and there
+// is at least one, and no other kind of caller).
+func paramAlwaysConst(p *Prog, fn *ssa.Function, prm *ssa.Parameter) bool {
+	idx := -1
+	for i, q := range fn.Params {
+		if q == prm {
+			idx = i
+		}
+	}
+	if idx < 0 {
+		return false
+	}
+	n := 0
+	for _, ed := range p.CallGraph().in[fn] {
+		call, ok := ed.Site.(ssa.CallInstruction)
+		if !ok || ed.Kind != "static" {
+			return false
+		}
+		args := allArgs(call)
+		if idx >= len(args) {
+			return false
+		}
+		if _, isC := intRootNoVar(args[idx]).(*ssa.Const); !isC {
+			return false
+		}
+		n++
+	}
+	return n > 0
+}
+
+// minLen: a lower bound of len(v) that holds by construction: slices of array
+// literals, constant strings, append chains (append never shortens), the
+// binary.Append* helpers, merges, and results of in-module functions all of
+// whose returns have such a bound. -1 if unknown.
+func minLen(p *Prog, v ssa.Value, depth int) int64 {
+	if depth > 6 {
+		return -1
+	}
+	switch x := v.(type) {
+	case *ssa.Slice:
+		if al, ok := x.X.(*ssa.Alloc); ok && x.Low == nil && x.High == nil {
+			if arr, isArr := deref(al.Type()).Underlying().(*types.Array); isArr {
+				return arr.Len()
+			}
+		}
+	case *ssa.MakeSlice:
+		if c, ok := constInt(x.Len); ok {
+			return c
+		}
+	case *ssa.Convert:
+		if c, ok := x.X.(*ssa.Const); ok && c.Value != nil && c.Value.Kind() == constant.String {
+			return int64(len(constant.StringVal(c.Value)))
+		}
+		return minLen(p, x.X, depth+1)
+	case *ssa.Phi:
+		best := int64(-1)
+		for i, e := range x.Edges {
+			k := minLen(p, e, depth+1)
+			if i == 0 || k < best {
+				best = k
+			}
+		}
+		return best
+	case *ssa.Call:
+		name := p.calleeOf(x.Common()).Name
+		switch name {
+		case "builtin.append":
+			if k := minLen(p, x.Call.Args[0], depth+1); k >= 0 {
+				return k
+			}
+			return 0
+		case "encoding/binary.bigEndian.AppendUint16", "encoding/binary.bigEndian.AppendUint32", "encoding/binary.bigEndian.AppendUint64":
+			args := allArgs(x)
+			if k := minLen(p, args[len(args)-2], depth+1); k >= 0 {
+				return k
+			}
+			return 0
+		}
+		if g := p.body(x.Call.StaticCallee()); g != nil && g.Signature.Results().Len() == 1 {
+			best, n := int64(-1), 0
+			for _, b := range g.Blocks {
+				if ret, ok := b.Instrs[len(b.Instrs)-1].(*ssa.Return); ok && len(ret.Results) == 1 {
+					k := minLen(p, ret.Results[0], depth+1)
+					if n == 0 || k < best {
+						best = k
+					}
+					n++
+				}
+			}
+			return best
+		}
+	}
+	return -1
 }
